@@ -745,8 +745,17 @@ def _encode(I, recv, args, kw):
     ex = I.ex
     if args and args[0] not in ("utf-8", "utf8"):
         raise Unsupported("encode with non-utf-8 codec")
+    errors = args[1] if len(args) > 1 else kw.get("errors", "strict")
+    if errors not in ("strict", "surrogatepass"):
+        raise Unsupported(f"encode with errors={errors!r}")
     if isinstance(recv, str):
-        return Tagged("bytes", list(recv.encode(*args)))
+        return Tagged("bytes", list(recv.encode("utf-8", errors)))
+    if errors == "strict" and not ex.pure:
+        # a Python str may hold lone surrogates (U+D800..U+DFFF), which the strict utf-8 codec refuses
+        I.use("str.encode('utf-8') (strict): UnicodeEncodeError for a string that holds a lone surrogate (uninterpreted predicate of the string); 'surrogatepass' never fails")
+        P_sur = z3.Function("str_has_lone_surrogate", StrSort, BoolSort)
+        if ex.decide(P_sur(ex.to_str_term(recv))):
+            ex.raise_builtin("UnicodeEncodeError", "surrogates not allowed")
     return SBytes(recv)
 
 
@@ -1341,7 +1350,10 @@ def _is_file(I, recv, args, kw):
 
 @meth("path", "stat")
 def _stat(I, recv, args, kw):
-    I.use("Path.stat().st_mtime: the file's current modification time (an opaque real)")
+    I.use("Path.stat().st_mtime: the file's current modification time (an opaque real); FileNotFoundError (an OSError) when the file is gone")
+    ex = I.ex
+    if not ex.pure and ex.decide(ex.sym("stat_file_missing", "bool").t):
+        ex.raise_builtin("FileNotFoundError", "stat() of a missing file")
     return HObj(ClassRef("stat_result"), {"st_mtime": SReal(z3.Real("stat.st_mtime"))})
 
 
